@@ -1,4 +1,4 @@
-//go:build !verif
+//go:build !(verif && verifhook_h1)
 
 package c14
 
